@@ -355,6 +355,10 @@ class Run:
             return 2
         stages = [dict(name="known", kind="plain", run="^TestKnown_%s" % self.pid, timeout=300),
                   dict(name="replay", kind="plain", run="^TestReplay_%s" % self.pid, timeout=300)]
+        # the same two implicit stages for every further package a registered stage lives in
+        for pkg in dict.fromkeys(st["pkg"] for st in self.spec["stages"] if st.get("pkg") and st["pkg"] != self.spec["pkg"]):
+            stages.append(dict(name="known@" + pkg, kind="plain", run="^TestKnown_%s" % self.pid, timeout=300, pkg=pkg))
+            stages.append(dict(name="replay@" + pkg, kind="plain", run="^TestReplay_%s" % self.pid, timeout=300, pkg=pkg))
         stages += self.spec["stages"]
         for st in stages:
             self.run_stage(st)
